@@ -13,7 +13,7 @@ from vf.xmodel import Schema, Rop, build_api, build_loader
 
 SHARDS = {'quick': 16, 'thorough': 32}
 TIMEOUT = {'quick': 900, 'thorough': 5400}
-MUST_HIT = ['SortOracle.after-delete-inside-a-chain', 'SortOracle.very-long-chain', 'SortOracle.rejected-calls-in-history', 'SortOracle.same-set-sorted-before-and-after-edits', 'SortOracle.some-whole-chains', 'SortOracle.ring-with-outsiders', 'SortOracle.other-reflexive-associations', 'SortOracle.after-edit-history', 'SortOracle.mixed-subset-termination', 'SortOracle.chains', 'SortOracle.ring', 'StepBudget.guarded-calls', 'SortOracle.subset-termination', 'SortOracle.results-changed-by-the-caller', 'SortOracle.empty']
+MUST_HIT = ['SortOracle.after-delete-inside-a-chain', 'SortOracle.very-long-chain', 'SortOracle.rejected-calls-in-history', 'SortOracle.same-set-sorted-before-and-after-edits', 'SortOracle.some-whole-chains', 'SortOracle.ring-with-outsiders', 'SortOracle.other-reflexive-associations', 'SortOracle.after-edit-history', 'SortOracle.mixed-subset-termination', 'SortOracle.chains', 'SortOracle.ring', 'StepBudget.guarded-calls', 'SortOracle.subset-termination', 'SortOracle.results-changed-by-the-caller', 'SortOracle.empty', 'SortOracle.pairs-related-across-either-phrase']
 MUST_REACH = ['xtuml/meta.py:sort_reflexive', 'xtuml/meta.py:sort_reflexive.<locals>.sequence_generator']
 ANCHORS = MUST_REACH
 MIN_NONTRIVIAL = {'quick': 500, 'thorough': 500}
@@ -105,7 +105,13 @@ def build(n, chains, ring, route):
     insts = [m.new('P', N=i) for i in range(n)]
     for chain in chains:
         for a, b in zip(chain, chain[1:]):
-            xtuml.relate(insts[a], insts[b], 1, 'precedes')
+            # the same pair is stated from either end: "a precedes b", or "b succeeds a"
+            _pairs[0] += 1
+            if _pairs[0] % 3 == 2:
+                xtuml.relate(insts[b], insts[a], 1, 'succeeds')
+                HITS['pairs-related-across-either-phrase'] = HITS.get('pairs-related-across-either-phrase', 0) + 1
+            else:
+                xtuml.relate(insts[a], insts[b], 1, 'precedes')
         if ring and len(chain) >= 1:
             xtuml.relate(insts[chain[-1]], insts[chain[0]], 1, 'precedes')
     if 2 in order:
@@ -119,6 +125,7 @@ def build(n, chains, ring, route):
 
 
 HITS = {}
+_pairs = [0]
 
 
 def call_sort(budget, qs, n, phrase):
